@@ -67,6 +67,9 @@ func (d Exec) Apply(opt *Option, profileRaw string) (string, error) {
 		}
 	}
 
+	if len(rules) == 0 {
+		return "", fmt.Errorf("no @{exec_path} to transition to in %s", strings.Join(opt.ArgList, " "))
+	}
 	aa.IndentationLevel = strings.Count(
 		strings.SplitN(opt.Raw, Keyword, 1)[0], aa.Indentation,
 	)
